@@ -14,7 +14,7 @@ Oracle (the statement, nothing more):
 
 Second family, "structured continuation lines": values whose continuation lines are, behind their indentation, lines that
 mean something to the reader in column 0 (PGP armor headers, an armor header field, a field line, a comment, '.', dashes):
-one such line, all ordered pairs of them, the complete armor sequence; same positions, keys and oracle, re-read from
+one such line, all ordered pairs of them (thorough tier: all ordered triples too), the complete armor sequence; same positions, keys and oracle, re-read from
 str, StringIO, bytes and a list of lines.
 """
 import io
@@ -50,11 +50,18 @@ def keys(seed):
 
 
 def _maxlen(tier):
-    return {"quick": 6, "thorough": 7}[tier]
+    return {"quick": 6, "thorough": 8}[tier]
+
+
+# thorough only: one more length for one (position, key) configuration - indexes into POSITIONS and keys()
+DEEP_LEN = 9
+DEEP_CONFIGS = [(2, 0)]
 
 
 def bounds(tier):
-    return {"value": "all strings of length 0..%d over {letter, ':', '#', ' ', '\\t', '\\r', '\\n'}" % _maxlen(tier),
+    return {"value": "all strings of length 0..%d over {letter, ':', '#', ' ', '\\t', '\\r', '\\n'}" % _maxlen(tier) + (
+                "" if tier == "quick" else "; all strings of length %d for the configuration(s) %s" % (
+                    DEEP_LEN, ", ".join("(%s, %s)" % (POSITIONS[pi], keys(0)[ki]) for pi, ki in DEEP_CONFIGS))),
             "positions": {"only": "new field of an empty paragraph", "first": "overwrite K in [K, Y]",
                           "middle": "overwrite K in [X, K, Y]", "last": "overwrite K in [X, K]"},
             "keys": keys(0), "sources": ["str", "StringIO"],
@@ -62,11 +69,14 @@ def bounds(tier):
             "structured_continuation_lines": {
                 "lines": STRUCT_LINES, "first_lines": STRUCT_FIRST, "indents": STRUCT_INDENTS, "trailing": STRUCT_TRAIL,
                 "values": "first + LF + indent + L + trailing for every L (%d); first + two such lines for all %d ordered "
-                          "pairs (L1, L2), same indent, no trailing (indent of two blanks: the 25 pairs of armor lines); first + the three armor lines SIGNED MESSAGE / SIGNATURE "
+                          "pairs (L1, L2), same indent, no trailing (indent of two blanks: the 25 pairs of armor lines); %sfirst + the three armor lines SIGNED MESSAGE / SIGNATURE "
                           "/ END SIGNATURE (+ 'Hash: SHA1' after the first); each L alone as the first line of the value and "
                           "followed by ' y': %d values per configuration" % (
                               len(STRUCT_LINES) * len(STRUCT_TRAIL), len(STRUCT_LINES) ** 2,
-                              sum(len(struct_values(g)) for g in range(len(struct_groups())))),
+                              "" if tier == "quick" else
+                              "first + three such lines for all %d ordered triples (L1, L2, L3), same indent, no trailing (indent "
+                              "of two blanks: the 125 triples of armor lines); " % len(STRUCT_LINES) ** 3,
+                              sum(len(struct_values(g, 0, tier)) for g in range(len(struct_groups())))),
                 "sources": ["str", "StringIO", "bytes", "list of lines with newlines"]}}
 
 
@@ -94,7 +104,7 @@ def struct_groups():
     return [(f, ind) for f in STRUCT_FIRST for ind in STRUCT_INDENTS]
 
 
-def struct_values(gi, seed=0):
+def struct_values(gi, seed=0, tier="quick"):
     """values of one (first line, indent) group, simplest first"""
     f, ind = struct_groups()[gi]
     if f:
@@ -102,8 +112,13 @@ def struct_values(gi, seed=0):
     out = [f + "\n" + ind + L + t for L in STRUCT_LINES for t in STRUCT_TRAIL]
     two = STRUCT_LINES if len(ind) == 1 else STRUCT_LINES[:5]      # the two-character indent: armor lines only
     out += [f + "\n" + ind + L1 + "\n" + ind + L2 for L1 in two for L2 in two]
+    if tier != "quick":
+        out += [f + "".join("\n" + ind + L for L in seq) for seq in itertools.product(two, repeat=3)]
     sm, sig, end = STRUCT_LINES[:3]
-    out += [f + "".join("\n" + ind + L for L in seq) for seq in ((sm, sig, end), (sm, "Hash: SHA1", sig, end), (sm, ".", "q", sig, end))]
+    seqs = ((sm, sig, end), (sm, "Hash: SHA1", sig, end), (sm, ".", "q", sig, end))
+    if tier != "quick":
+        seqs = seqs[1:]            # the plain armor sequence is one of the triples
+    out += [f + "".join("\n" + ind + L for L in seq) for seq in seqs]
     if gi == 0:
         # the line as the FIRST line of the value (column 0 of the value, behind 'Key: ' in the dump)
         out += [L for L in STRUCT_LINES] + [L + "\n y" for L in STRUCT_LINES]
@@ -226,11 +241,17 @@ def execute(position, key, v, part=None, sources=("str", "stringio")):
 def units(tier, seed):
     out = []
     for L in range(0, _maxlen(tier) + 1):
-        plen = max(0, L - 4)
+        # up to length 6 a unit is a prefix + all 7^4 endings; from length 7 on a prefix + all 7^5 endings
+        plen = max(0, L - 4) if L <= 6 else L - 5
         for pre in itertools.product(range(7), repeat=plen):
             for pi in range(len(POSITIONS)):
                 for ki in range(2):
                     out.append((L, pre, pi, ki))
+    if tier != "quick":
+        # a unit is a prefix + all 7^6 endings
+        for pre in itertools.product(range(7), repeat=DEEP_LEN - 6):
+            for pi, ki in DEEP_CONFIGS:
+                out.append((DEEP_LEN, pre, pi, ki))
     for gi in range(len(struct_groups())):
         for pi in range(len(POSITIONS)):
             for ki in range(2):
@@ -252,7 +273,7 @@ def run_unit(u, tier, seed):
     position, key = POSITIONS[pi], keys(seed)[ki]
     if L == "S":
         part.max_depth = 6
-        for v in struct_values(pre, seed):
+        for v in struct_values(pre, seed, tier):
             part.states += 1
             part.transitions += 1
             part.traces += 1
